@@ -928,11 +928,30 @@ func (c *TermCtx) Render(q *Query, wantModel bool) string {
 		sb.WriteString("(set-option :produce-models true)\n")
 	}
 	sb.WriteString("(set-logic ALL)\n")
-	// sorts in declaration order
-	for _, s := range c.Sorts.order {
-		if !usedSorts[s] {
-			continue
+	// sorts: dependencies (field sorts) first
+	var sortOrder []*Sort
+	emitted := map[*Sort]bool{}
+	var emit func(s *Sort)
+	emit = func(s *Sort) {
+		if s == nil || emitted[s] {
+			return
 		}
+		emitted[s] = true
+		emit(s.Key)
+		emit(s.Elem)
+		for _, f := range s.Fields {
+			emit(f.Sort)
+		}
+		if s.Kind == KUnint || s.Kind == KData {
+			sortOrder = append(sortOrder, s)
+		}
+	}
+	for _, s := range c.Sorts.order {
+		if usedSorts[s] {
+			emit(s)
+		}
+	}
+	for _, s := range sortOrder {
 		switch s.Kind {
 		case KUnint:
 			fmt.Fprintf(&sb, "(declare-sort %s 0)\n", s.Name)
